@@ -9,7 +9,10 @@ STRUCT = dict(c='BQ', header=H, cls='BoundedSPSCQueueImpl',
               ghost='integer_type g_prod_hb, g_cons_hb, g_pub_AR, g_pub_AW, g_cons_lb; bool g_prod_gone;')
 
 PRELUDE = r'''
-typedef size_t integer_type;      /* BoundedSPSCQueue = BoundedSPSCQueueImpl<size_t> (the alias the library uses) */
+#ifndef INTEGER_T
+#define INTEGER_T size_t
+#endif
+typedef INTEGER_T integer_type;      /* BoundedSPSCQueue = BoundedSPSCQueueImpl<size_t> (the alias the library uses); BQ.ctor has a variant at uint16_t (the narrow instantiations the test suite exercises) */
 typedef int HugePagesPolicy;
 @STRUCT:BQ@
 #define MAXCAP (((size_t)1) << 40)     /* CBMC object-size limit; only for the two pointer-returning methods */
@@ -227,14 +230,15 @@ def method_unit(m, props, variants=None, extra_desc=''):
 
 # ------------------------------------------------------------------------------------------------ constructor
 CTOR_PRELUDE = PRELUDE + r"""
+#define TOPPOW ((integer_type)(((integer_type)1) << (8 * sizeof(integer_type) - 1)))   /* the largest power of two of the counter type */
 #define ATOMIC_STORE__atomic_writer_pos(s, v, mo) ((s)->_atomic_writer_pos = (v))
 #define ATOMIC_STORE__atomic_reader_pos(s, v, mo) ((s)->_atomic_reader_pos = (v))
 /* next_power_of_two: replaced by the contract proved in unit MU.npow2 */
 integer_type next_power_of_two(integer_type n)
 __CPROVER_assigns()
 __CPROVER_ensures(POW2(RET))
-__CPROVER_ensures(n <= (((size_t)1) << 63) ==> (RET >= n && (RET == 1 || RET / 2 < n)))
-__CPROVER_ensures(n > (((size_t)1) << 63) ==> RET == (((size_t)1) << 63));
+__CPROVER_ensures(n <= TOPPOW ==> (RET >= n && (RET == 1 || RET / 2 < n)))
+__CPROVER_ensures(n > TOPPOW ==> RET == TOPPOW);
 /* TRUSTED: _alloc_aligned returns a fresh block of the requested size or throws (mmap) */
 void* _alloc_aligned(size_t size, size_t alignment, HugePagesPolicy p)
 __CPROVER_assigns(g_exc)
@@ -254,13 +258,14 @@ ctor = dict(
                 cfun='BQ_ctor', sig='void BQ_ctor(BQ* self, integer_type capacity, HugePagesPolicy huge_pages_policy, integer_type reader_store_percent)',
                 cls_c='BQ', siblings=[], exceptions=True, auto_helpers=dict(typemap={'integer_type': 'integer_type'}),
                 contract=r"""
-__CPROVER_requires(__CPROVER_is_fresh(self, sizeof(*self)) && g_exc == EXC_NONE && capacity <= (((size_t)1) << 39))
+__CPROVER_requires(__CPROVER_is_fresh(self, sizeof(*self)) && g_exc == EXC_NONE && capacity <= (((size_t)1) << 39) && capacity <= TOPPOW)
 __CPROVER_assigns(__CPROVER_object_whole(self), g_exc)
 __CPROVER_ensures(g_exc == EXC_NONE ==> (POW2(self->_capacity) && self->_capacity >= capacity && self->_mask == self->_capacity - 1)) /*@ C01 "constructed capacity is a power of two not below the request, mask = capacity - 1" */
 __CPROVER_ensures(g_exc == EXC_NONE ==> (self->_atomic_writer_pos == 0 && self->_writer_pos == 0 && self->_reader_pos_cache == 0 && self->_atomic_reader_pos == 0 && self->_reader_pos == 0 && self->_writer_pos_cache == 0)) /*@ C01 "all six positions start at 0 (the invariant holds initially with every ghost view 0)" */
 __CPROVER_ensures(g_exc == EXC_NONE ==> __CPROVER_w_ok(self->_storage, 2 * self->_capacity)) /*@ C01 "the buffer has twice the capacity (room for a record that starts just below the capacity)" */
 """)],
     harness='  BQ* q; integer_type c, p; HugePagesPolicy h; BQ_ctor(q, c, h, p);',
+    variants=[dict(name='main'), dict(name='uint16_t', defs=['INTEGER_T=uint16_t'], what='BoundedSPSCQueueImpl<uint16_t>: every capacity up to the largest power of two of the counter type (seed C01-F1: a helper returning the doubled size in the counter type wraps to 0 there)')],
     dropped=DROPPED + ['_bytes_per_batch is computed in double arithmetic; the invariant does not depend on its value'],
     trusted=['_alloc_aligned (mmap) returns a fresh block of the requested size or throws', 'memset writes only the given range'],
     min_obligations=10,
